@@ -6,6 +6,7 @@ import (
 	"errors"
 	"fmt"
 	dsig "github.com/russellhaering/goxmldsig"
+	"math"
 	"net/http"
 	"net/http/httptest"
 	"net/url"
@@ -68,7 +69,20 @@ var c18IIs = []c18II{
 	{"1h-ago", func(d, s time.Duration) (time.Duration, bool) { return -time.Hour - d, true }, core.MustReject},
 	{"future-30s", func(d, s time.Duration) (time.Duration, bool) { return 30 * time.Second, true }, core.DontCare},
 	{"absent", func(d, s time.Duration) (time.Duration, bool) { return 0, false }, core.MustReject},
+	// instants so far back that their distance from now does not fit a time.Duration (about 292 years): still stale
+	{"year-1700", func(d, s time.Duration) (time.Duration, bool) { return c18Year(1700), true }, core.MustReject},
+	{"year-1500", func(d, s time.Duration) (time.Duration, bool) { return c18Year(1500), true }, core.MustReject},
+	{"year-1446", func(d, s time.Duration) (time.Duration, bool) { return c18Year(1446), true }, core.MustReject},
+	{"year-1000", func(d, s time.Duration) (time.Duration, bool) { return c18Year(1000), true }, core.MustReject},
+	{"year-0001", func(d, s time.Duration) (time.Duration, bool) { return c18Year(1), true }, core.MustReject},
+	{"year-9999", func(d, s time.Duration) (time.Duration, bool) { return c18Year(9999), true }, core.DontCare},
 }
+
+// c18Regular is the number of c18IIs entries that are offsets from now; the rest name a calendar year (see c18Year).
+const c18Regular = 8
+
+// c18Year encodes "1 June of that year" as an offset value no real offset takes.
+func c18Year(y int) time.Duration { return time.Duration(math.MinInt64) + time.Duration(y) }
 
 var c18Dests = []struct {
 	name string
@@ -97,6 +111,7 @@ var c18Issuers = []struct {
 }
 
 var c18Sigs = []string{"valid", "valid-no-keyinfo", "absent", "untrusted-key", "lookalike-certificate-key", "encryption-use-key", "edited-after/destination", "edited-after/issuer", "edited-after/status", "edited-after/issueinstant",
+	"other-root/samlp:Response", "other-root/samlp:ArtifactResponse", "other-root/samlp:LogoutRequest", "other-root/foreign:LogoutResponse", "other-root/saml:LogoutResponse", "other-root/samlp:logoutresponse",
 	"relocated-under-status", "wrapped-in-unsigned", "duplicated", "attacker-signed+trusted-cert-appended", "attacker-signed+trusted-cert-first", "signature-value-truncated", "foreign-ns-signature-lookalike"}
 
 func c18Build(dest, issuer *string, st c18Status, iiOff time.Duration, iiPresent bool, sig string, trustKey *samlgen.KeyPair) []byte {
@@ -136,8 +151,21 @@ func c18Build(dest, issuer *string, st c18Status, iiOff time.Duration, iiPresent
 		return el
 	}
 	ii := now.Add(iiOff)
+	if iiOff < time.Duration(math.MinInt64)+20000 {
+		ii = time.Date(int(iiOff-time.Duration(math.MinInt64)), 6, 1, 12, 0, 0, 0, time.UTC)
+	}
 	el := mk(dest, issuer, st, ii, iiPresent)
 	switch {
+	case strings.HasPrefix(sig, "other-root/"):
+		// a message of another type (or a LogoutResponse look-alike in another namespace) that the IdP genuinely signed, with the same
+		// attributes and children: it is not a logout response
+		q := strings.TrimPrefix(sig, "other-root/")
+		pfx, tag, _ := strings.Cut(q, ":")
+		el.Space, el.Tag = pfx, tag
+		if pfx == "foreign" {
+			el.CreateAttr("xmlns:foreign", "urn:example:not-saml")
+		}
+		samlgen.Sign(el, trustKey, "")
 	case sig == "valid":
 		samlgen.Sign(el, trustKey, "")
 	case sig == "valid-no-keyinfo":
@@ -317,6 +345,9 @@ func runC18(c *core.Ctx) {
 					for si := range c18Statuses {
 						for iii := range c18IIs {
 							for _, enc := range []string{"form", "redirect"} {
+								if iii >= c18Regular && di+ii+si > 0 {
+									continue // the calendar-year instants only next to otherwise valid fields
+								}
 								tl, tr, di, ii, si, iii, enc := tl, tr, di, ii, si, iii, enc
 								key := fmt.Sprintf("tol=%s/trust=%s/dest=%s/issuer=%s/status=%s/ii=%s/sig=valid/%s", tl.name, tr, c18Dests[di].name, c18Issuers[ii].name, c18Statuses[si].name, c18IIs[iii].name, enc)
 								c.Case(key, func(t *core.T) {
